@@ -156,6 +156,32 @@ type SharedSpec struct {
 	Pre  []Op   `json:"pre,omitempty"` // for urls: construction history (parse + setters + getsp), run before sharing
 }
 
+// FloodSpec: item i is a pure function of (Kind, Salt, i); items are pairwise distinct.
+type FloodSpec struct {
+	N    int    `json:"n"`
+	Kind int    `json:"kind"` // 0 non-ASCII host, 1 ASCII host, 2 scheme, 3 path and query
+	Salt uint64 `json:"salt"`
+}
+
+func floodItem(f *FloodSpec, i int) string {
+	w := []byte{byte('a' + f.Salt%26), byte('a' + f.Salt/26%26), byte('a' + f.Salt/676%26)}
+	for n := i; ; n /= 26 {
+		w = append(w, byte('a'+n%26))
+		if n < 26 {
+			break
+		}
+	}
+	switch f.Kind {
+	case 0:
+		return "http://" + string(w) + "\u00e9.example/"
+	case 1:
+		return "http://" + string(w) + ".example/"
+	case 2:
+		return string(w) + "://h/p"
+	}
+	return "http://h/" + string(w) + "?k=" + string(w)
+}
+
 type Plan struct {
 	Prop string  `json:"prop"`
 	Seed uint64  `json:"seed"`
@@ -173,6 +199,7 @@ type Plan struct {
 	Strategy   string    `json:"strategy,omitempty"`
 	Order      string    `json:"order,omitempty"`                     // "" = run-alone reference first; "concurrent-first" = scheduled run first (process-wide state still cold), reference afterwards
 	Procs      int       `json:"gomaxprocs,omitempty"`                // GOMAXPROCS for this plan: with one P every goroutine shares the same sync.Pool slots (maximal reuse), with many they rarely meet
+	Flood      *FloodSpec `json:"flood,omitempty"`                     // N distinct inputs parsed one after the other through parser 0 before anything is shared or scheduled (fills whatever the library caches, up to and beyond its capacity)
 	ParkInCrit bool      `json:"park_in_critical_sections,omitempty"` // allow preemption lexically inside Lock()...Unlock() (risks deadlock, see verifrt.Crit)
 	FpEvery    bool      `json:"fp_every_switch,omitempty"`
 }
